@@ -81,7 +81,10 @@ def gen_case(seed, i):
     # --no-check-size: then only the modification time protects a changed file; empty files (-s 0) too
     r_ = rng.random()
     if r_ < 0.12 and "-H" not in gflags:
-        gflags = gflags + ["--transform", rng.choice(["cat", "tr a-m A-M", "head -c 20"])]
+        gflags = gflags + rng.choice([["--transform", "cat"], ["--transform", "tr a-m A-M"], ["--transform", "head -c 20"],
+                                      # a program that works on the original files themselves (and here leaves them alone)
+                                      ["--transform", "true $IN", "--in-place", "--no-copy"],
+                                      ["--transform", "cat $IN", "--no-copy"]])
     elif r_ < 0.22:
         dargs = dargs + ["--no-check-size"]
     lens = [1, 40, 300, 5000, 70000]
